@@ -6222,7 +6222,7 @@ TestCommand_getFromBuffer(TestCommand self, CS101_AppLayerParameters parameters,
         uint8_t* msg, int msgSize, int startIndex)
 {
     /* check message size */
-    int minSize = startIndex + 2;
+    int minSize = startIndex + parameters->sizeOfIOA + 2;
 
     if (minSize > msgSize) {
         DEBUG_PRINT("invalid ASDU - size too small\n");
@@ -6322,7 +6322,7 @@ TestCommandWithCP56Time2a_getFromBuffer(TestCommandWithCP56Time2a self, CS101_Ap
         uint8_t* msg, int msgSize, int startIndex)
 {
     /* check message size */
-    int minSize = startIndex + 9;
+    int minSize = startIndex + parameters->sizeOfIOA + 9;
 
     if (minSize > msgSize) {
         DEBUG_PRINT("invalid ASDU - size too small\n");
